@@ -26,7 +26,12 @@
 (*           new view's address and tell(), <<value>> or <<>> if that      *)
 (*           raised (len(new) is -1 if len() raised); otherwise <<>>       *)
 (*   acc   : the controller accesses the operation caused, in order        *)
-(*           <<kind, address, length, data, x, y>> (see FileView)          *)
+(*           <<kind, address, length, data, x, y>> (see FileView); besides *)
+(*           "r" / "w" / "f" the kinds "rx" / "wx": a read / write access  *)
+(*           which FAILED (the controller raised - the machine did not     *)
+(*           answer, the network lost the command): it was attempted at    *)
+(*           that address with that length, nothing came back, nothing was *)
+(*           stored (data = <<>>)                                          *)
 (*   warn  : number of TruncationWarnings issued                           *)
 (*   after : tell() of view v straight after the operation: <<p>>, or <<>> *)
 (*           if it raised                                                  *)
@@ -43,6 +48,14 @@ Ev == Tr.ev[ei]
 
 Guarded == {"seek", "tell", "read", "write", "flush", "address"}
 Ops == Guarded \cup {"slice", "close", "free", "len"}
+
+\* ------------------------------------------------------------------ failed accesses
+\* an access the controller did not carry out (it raised instead): no byte was transferred
+Attempt(ac) == ac[1] \in {"rx", "wx"}
+Touches(ac) == IsTransfer(ac) \/ Attempt(ac)
+\* the addresses of failed attempts count like those of transfers
+AllTouchesInside(accs, lo, hi) == \A i \in 1..Len(accs) : Touches(accs[i]) => AccessInside(accs[i], lo, hi)
+Faulted(e) == \E i \in 1..Len(e[5]) : Attempt(e[5][i])
 
 \* ------------------------------------------------------------------ the model's view of event e
 Vw(e) == st.views[e[2]]
@@ -84,7 +97,7 @@ Root == st.views[1]
 
 \* ------------------------------------------------------------------ clauses
 Common(e) ==
-  LET vw == Vw(e)  acc == e[5]  inside == AllInside(acc, vw.lo, vw.hi) IN
+  LET vw == Vw(e)  acc == e[5]  inside == AllTouchesInside(acc, vw.lo, vw.hi) IN
   [ \* no operation on a view reads or writes an address outside that view's range; the three
     \* names tell where the view's position was when the access was made
     Confined                   |-> PosClass(e) = "in" => inside,
@@ -98,18 +111,23 @@ Common(e) ==
     \* after close / free every guarded operation fails (and touches nothing); the tell() made
     \* straight after the operation is such an operation as well
     ClosedFails    |-> /\ (vw.closed /\ e[1] \in Guarded) => (~Ok(e) /\ acc = <<>>)
-                       /\ vw.closed => \A i \in 1..Len(acc) : ~IsTransfer(acc[i])
+                       /\ vw.closed => \A i \in 1..Len(acc) : ~Touches(acc[i])
                        /\ ClosedAfter(e) => e[7] = <<>>,
     FreedFails     |-> /\ (st.freed /\ e[1] \in Guarded) => ~Ok(e)
                        /\ st.freed => acc = <<>>
                        /\ FreedAfter(e) => e[7] = <<>>,
-    \* positions advance by the bytes transferred, and not otherwise (seeks have their own clauses)
+    \* positions advance by the bytes transferred, and not otherwise (seeks have their own clauses);
+    \* an operation that raised - because the view refused it or because its controller access
+    \* failed - transferred nothing (PosModel: the position stays where it was)
     PositionAdvances |-> (e[1] # "seek" \/ ~Ok(e)) /\ ~ClosedAfter(e) /\ ~FreedAfter(e) => e[7] = <<PosModel(e)>>,
     \* on a live view operations succeed (a seek to before the start, and a transfer at a negative
-    \* position, may be refused)
+    \* position, may be refused; a transfer whose controller access failed cannot succeed)
     NoSpuriousFailure |-> (~Dead(e) /\ ~Ok(e)) =>
                              \/ e[1] = "seek" /\ Target(e) < 0
-                             \/ e[1] \in {"read", "write"} /\ vw.pos < 0,
+                             \/ e[1] \in {"read", "write"} /\ vw.pos < 0
+                             \/ e[1] \in {"read", "write"} /\ Faulted(e),
+    \* (what the driver's controllers record of a failed access: no data)
+    env_FailedAccessEmpty |-> \A i \in 1..Len(acc) : Attempt(acc[i]) => acc[i][4] = <<>>,
     \* only the free operation releases memory, and it names the allocation
     FreeNamesAllocation |-> IF e[1] = "free" /\ Ok(e) /\ ~st.freed
                             THEN Len(acc) = 1 /\ acc[1][1] = "f" /\ acc[1][2] = Root.lo
